@@ -23,7 +23,7 @@ NSHARDS = {"quick": 16, "thorough": 16}
 THRESHOLDS = {
     "quick": {"repotests:ambient:gen:gen_dfs?repotests:runs": 50, "c12:not-flagged": 500, "c12:perc-strict-subset": 200, "c12:no-forks-nontrivial": 100, "c12:random-path-ok": 1000,
               "c12:exact-count-checked": 300, "c12:gen_dfs": 500, "c12:gen_wilson": 100, "c12:gen_percolation": 300,
-              "c12:gen_dfs_percolation": 300, "c12:get_connected_component": 500, "c12:metadata-rejudged-after-draws": 1000, "c12:random-path-with-options": 3000, "hits:gen_dfs": 1},
+              "c12:gen_dfs_percolation": 300, "c12:get_connected_component": 500, "c12:threaded-generations": 200, "c12:metadata-rejudged-after-draws": 1000, "c12:random-path-with-options": 3000, "hits:gen_dfs": 1},
 }
 THRESHOLDS["thorough"] = dict(THRESHOLDS["quick"])
 ANCHORS = [
@@ -44,6 +44,7 @@ def run(ctx):
         run_under_monitors(ctx)
     from maze_dataset.generation.generators import GENERATORS_MAP
 
+    _threaded(ctx, 2 if ctx.quick else 12)
     n_cases = 9000 if ctx.quick else 200000
     for i in range(n_cases):
         if not ctx.mine(i):
@@ -64,7 +65,10 @@ def run(ctx):
         case = dict(gen=gen, shape=(R, C), kwargs=kw, rng_seed=cseed)
         genwork.seed_library_rngs(cseed)
         with ctx.guard(f"C12/{gen}/call", case), call_watchdog(ctx, 120, f"C12/{gen} {R}x{C}"):
-            maze = GENERATORS_MAP[gen](np.array([R, C]), **kw)
+            dts = [np.int64, np.int32, np.int8, np.uint8, np.int16]
+            dt = dts[i % len(dts)] if gen != "gen_wilson" else np.int64
+            case["shape_dtype"] = np.dtype(dt).name
+            maze = GENERATORS_MAP[gen](np.array([R, C], dtype=dt), **kw)
             # (if the watchdog fires the block is left here and the case is reported as inconclusive)
             ctx.ev()
             g = Graph(maze.connection_list)
@@ -81,6 +85,37 @@ def run(ctx):
                 ctx.sample(dict(case=case, meta={k: (v if not hasattr(v, "__len__") or isinstance(v, str) else f"<{len(v)} cells>")
                                                  for k, v in meta.items()}))
             _random_paths(ctx, maze, g, case, 6 if ctx.quick else 10)
+
+
+def _threaded(ctx, n_rounds):
+    """several threads inside the generators at once (a torch DataLoader with thread workers, a web service): every returned maze
+    and its metadata are judged exactly like the single-threaded ones"""
+    import sys
+    from concurrent.futures import ThreadPoolExecutor
+
+    from maze_dataset.generation.generators import GENERATORS_MAP
+
+    old = sys.getswitchinterval()
+    sys.setswitchinterval(1e-5)
+    try:
+        for rnd in range(n_rounds):
+            rng = ctx.sub_rng("threads", ctx.shard, rnd)
+            R = C = int([16, 20, 24][rnd % 3])
+            jobs = []
+            for t in range(12):
+                gen = ["gen_dfs", "gen_dfs", "gen_prim", "gen_dfs_percolation", "gen_percolation", "gen_dfs"][t % 6]
+                kw = [{}, dict(accessible_cells=R * C // 2), {}, dict(p=0.1), dict(p=0.5), dict(do_forks=False)][t % 6]
+                jobs.append((gen, kw))
+            with ThreadPoolExecutor(max_workers=4) as ex:
+                outs = list(ex.map(lambda j: GENERATORS_MAP[j[0]](np.array([R, C]), **j[1]), jobs))
+            for (gen, kw), maze in zip(jobs, outs):
+                case = dict(gen=gen, shape=(R, C), kwargs=kw, threaded=True)
+                ctx.ev(); ctx.tally("c12:threaded-generations")
+                g = Graph(maze.connection_list)
+                oracles.check_c01(ctx, gen, (R, C), kw, maze, case, owner="C01")
+                oracles.check_c12(ctx, gen, (R, C), kw, maze, g, case)
+    finally:
+        sys.setswitchinterval(old)
 
 
 def _random_paths(ctx, maze, g, case, n):
